@@ -228,3 +228,29 @@ Theorem C05_content_rules_verdict_from_source :
   (run_rule orc U FE ST fn_Dir vn obj field v = Some [] <-> rDir orc vn obj field v = []).
 Proof. exact content_rules_write_iff_clause. Qed.
 Print Assumptions C05_content_rules_verdict_from_source.
+
+(* In, Include and the function in() they share (valid/validfn.go).  in() takes the comparison as a function value; In
+   passes func(a, b string) bool { return a == b }, Include passes strings.Contains — function literals the translator
+   prints as such.  For EVERY comparison function g the body of in() — option list between the first '(' and the last
+   ')' with its slice bounds, a non-string value rendered by ToStr (refused by include), the loop over
+   ValidNamesSplit(options, '/') with protecting quotes trimmed and its break, custom message or default wording —
+   writes in_text g (the loop by induction over the options); In and Include are in() with equality and containment. *)
+From PGV Require Import Extracted.SourceFnsIn Proofs.GoInProofs.
+Theorem C05_in_include_from_source :
+  forall (orc : oracles) (U : val -> str) (FE : str -> str -> ftext -> str) (ST : str -> str) vn obj field v,
+  (forall g, run_in orc U FE ST fn_in g vn obj field v = in_text FE g vn obj field v) /\
+  run_rule orc U FE ST fn_In vn obj field v = in_text FE g_eq vn obj field v /\
+  run_rule orc U FE ST fn_Include vn obj field v = in_text FE g_contains vn obj field v.
+Proof. exact in_rules_from_source. Qed.
+Print Assumptions C05_in_include_from_source.
+
+(* ... and they write nothing exactly when the model's in_like (the function C05_in and C05_include judge) reports no clause *)
+Theorem C05_in_include_verdict_from_source :
+  forall (orc : oracles) (U : val -> str) (FE : str -> str -> ftext -> str) (ST : str -> str),
+  (forall o f t, FE o f t <> []) -> forall vn obj field v,
+  (str_eqb (pk_key vn) (s2b "include") = false ->
+     (run_rule orc U FE ST fn_In vn obj field v = Some [] <-> in_like vn obj field v = [])) /\
+  (str_eqb (pk_key vn) (s2b "include") = true ->
+     (run_rule orc U FE ST fn_Include vn obj field v = Some [] <-> in_like vn obj field v = [])).
+Proof. exact in_rules_write_iff_clause. Qed.
+Print Assumptions C05_in_include_verdict_from_source.
